@@ -9,7 +9,7 @@ import attrs
 
 from .. import impl
 from ..explore import explore_roots, get_mm, root_class
-from ..mm import ref, json_eq, snake, ANY_ALIASES, is_num
+from ..mm import ref, json_eq, snake, ANY_ALIASES, is_num, canon
 from ..runner import Result, Violation
 
 PROP = "C03"
@@ -325,12 +325,79 @@ def _site_task(args):
     return n, vs, vse.states, vse.transitions
 
 
+def shape_collisions(mm):
+    """Values that are valid for two different structures reachable at union positions (e.g. {"pattern": "s"}
+    is a TextDocumentFilterPattern in a document selector and a NotebookDocumentFilterPattern in a notebook
+    selector).  -> [[(site index, alternative index, value), ...]] one list per colliding value."""
+    from . import c14
+    from ..vse import VSE
+    from ..mm import ANY_ALIASES as _ANY
+    vse = VSE(mm)
+    by_val = {}
+    for idx, (ok, on, path, ort, via) in enumerate(c14.union_sites(mm)):
+        if not [r for r in c14.roots_for_site(mm, ok, on, path) if root_class(r[0]) is not None and r[0] not in mm.aliases]:
+            continue
+        for ai, alt in enumerate(ort["items"]):
+            t = alt
+            hops = 0
+            while t["kind"] == "reference" and t["name"] in mm.aliases and t["name"] not in _ANY and hops < 8:
+                t = mm.aliases[t["name"]]["type"]
+                hops += 1
+            if t["kind"] != "reference" or t["name"] not in mm.structures:
+                continue
+            for c, v in vse.enum(t, 1):
+                by_val.setdefault(canon(v), {}).setdefault(t["name"], (idx, ai, v))
+    out = []
+    for cv, d in sorted(by_val.items()):
+        if len(d) >= 2:
+            out.append([d[k] for k in sorted(d)][:3])
+    return out
+
+
+def _collision_task(args):
+    """Freshly forked process, fresh converter: the same value is structured at two different union positions,
+    one after the other (all orders); each result must be well-typed for *its* position."""
+    from . import c14
+    from ..vse import VSE
+    import itertools
+    group = args
+    mm = get_mm()
+    vse = VSE(mm)
+    sites = c14.union_sites(mm)
+    n = 0
+    vs = []
+    for order in itertools.permutations(range(len(group)), 2):
+        for gi in order:
+            idx, ai, v = group[gi]
+            ok, on, path, ort, via = sites[idx]
+            for rname, rt, rpath in [r for r in c14.roots_for_site(mm, ok, on, path) if root_class(r[0]) is not None and r[0] not in mm.aliases][:1]:
+                j = c14.embed(mm, vse, rt, rpath, v)
+                if j is None or not mm.valid(j, rt, True):
+                    continue
+                st, out = check(mm, rname, j)
+                n += 1
+                for p, k, got in out:
+                    vs.append(Violation(PROP, "mistyped", p, "%s: %s (got %s) when the same value had been structured at another union position before" % (p, k, got),
+                                        {"engine": "VSE", "root": rname, "input": j, "history": [str(group[g][2])[:80] for g in order], "observed": [p, k, str(got)]},
+                                        node=j, extra=k + "-after-same-shape-elsewhere"))
+    return n, vs
+
+
 def run(ctx):
     mm = get_mm()
     res = Result()
     lsp = impl.lsp()
     roots = [n for k, n in mm.roots() if hasattr(lsp, n)]
     kmin, kmax = (3, 1) if ctx.thorough else (2, 0)
+    # shape-collision histories first (children forked from this pristine process)
+    impl.converter()
+    import multiprocessing as _mp
+    groups = shape_collisions(mm)
+    with _mp.get_context("fork").Pool(ctx.workers, maxtasksperchild=1) as pool:
+        cparts = pool.map(_collision_task, groups, chunksize=1)
+    collision_execs = sum(p[0] for p in cparts)
+    for p in cparts:
+        res.merge_violations(p[1])
     opts = {"cap_s": 900 if ctx.thorough else 120}
     a, v = explore_roots(ctx, judge, roots, kmin, kmax, opts)
     res.merge_violations(v)
@@ -345,7 +412,7 @@ def run(ctx):
         res.merge_violations(vs_)
         a["states"] += st_
         a["transitions"] += tr_
-    a["evals"] += site_execs
+    a["evals"] += site_execs + collision_execs
     from .c01 import corpus_pass
     c_evals, c_viols, c_outcomes, c_note = corpus_pass(ctx, judge)
     res.merge_violations(c_viols)
@@ -368,7 +435,7 @@ def run(ctx):
         "rule": "every VSE derivation of every root is structured; the object graph is walked against the resolved attrs "
                 "annotations and, in lock-step with the input, against the metamodel (union positions: an alternative valid for the input); plus "
                 "every union site x alternative x shape of C14 (heterogeneous arrays, maximal alternatives) embedded in its owner root",
-        "union_site_executions": site_execs, "testdata_true_vectors_walked": c_evals,
+        "union_site_executions": site_execs, "shape_collision_groups": len(groups), "shape_collision_executions": collision_execs, "testdata_true_vectors_walked": c_evals,
         "roots": a["roots"], "bounds": {"min_base_k": kmin, "max_base_k": kmax},
         "outcome_classes": a["outcomes"], "attrs_fields_checked_resolved": nfields,
         "capped_roots": a["capped"], "exhaustive": not a["capped"], "samples": a["samples"],
